@@ -56,6 +56,9 @@ class TLCResult:
         m = re.search(r"Action property (\S+) is violated", out)
         if m:
             self.violated = m.group(1)
+        m = re.search(r"Temporal property (\S+) was violated", out)
+        if m:
+            self.violated = self.violated or m.group(1)
         if "Temporal properties were violated" in out:
             self.violated = self.violated or "temporal"
         self.finished = ("Model checking completed" in out) or ("Finished in" in out)
